@@ -8,7 +8,7 @@ import z3
 from .values import *   # noqa: F401,F403
 from . import values as V
 
-LAZY = ('whereidx', 'zip', 'enumerate', 'reversed', 'filter', 'items', 'combinations', 'range', 'values', 'keys')
+LAZY = ('whereidx', 'zip', 'enumerate', 'reversed', 'filter', 'items', 'combinations', 'range', 'values', 'keys', 'dictvalues')
 
 
 def kind_join(k1, k2, op=None):
